@@ -601,7 +601,31 @@ def r12_11(chk):
     chk.floor("R12.11", 0, "expected-zero rule with embedded probe")
 
 
+def r12_12(chk):
+    chk.rule("R12.12", "strand-relative framing in the new GeneticCode.translate: `start` and the truncation to a multiple of three are positions on the sequence that is translated; with rc=True that is the reverse complement, whose 5' end is the 3' end of the argument, so the slices by `start` / by the remainder must be chosen under a test of `rc` (the old implementation, and the docstring, translate rc(seq)[start:])")
+    m = chk.repo.module("core/new_genetic_code.py")
+    fn = m.func("GeneticCode.translate")
+    ps = params_of(fn)
+    if "rc" not in ps or "start" not in ps:
+        raise AnalysisError("new GeneticCode.translate lost its rc/start parameters")
+    seqp = [p for p in ps if p != "self"][0]
+    slices = [st for st in walk_no_nested(fn) if isinstance(st, ast.Assign) and norm(st.targets[0]) == seqp and isinstance(st.value, ast.Subscript) and norm(st.value.value) == seqp and isinstance(st.value.slice, ast.Slice)]
+    if not slices:
+        raise AnalysisError("new GeneticCode.translate: no slicing of the sequence found")
+
+    def under_rc(st):
+        for i in walk_no_nested(fn):
+            if isinstance(i, ast.If) and "rc" in {x.id for x in ast.walk(i.test) if isinstance(x, ast.Name)} and any(x is st for b in (i.body, i.orelse) for s_ in b for x in ast.walk(s_)):
+                return True
+        return False
+
+    for st in slices:
+        chk.decide(under_rc(st), "R12.12", key(m, "GeneticCode.translate", f"`{norm(st)}` chosen by strand"), m.loc(st), "slice selected under a test of rc", f"`{norm(st)}` is applied whatever the strand: with rc=True the offset / truncation is taken at the 5' end of the given strand, which is the 3' end of the strand being translated, so translate(s, start=k, rc=True) != translate(rc(s), start=k) and the minus-strand frames of sixframes() are numbered differently from the old implementation")
+    chk.floor("R12.12", 2, "start slice and truncation")
+
+
 def run(chk):
+    r12_12(chk)
     r12_11(chk)
     r12_10(chk)
     r12_9(chk)
